@@ -82,4 +82,91 @@ Proof.
     + apply PBe_remove_ind.
     + apply PBe_restore_ind.
 Qed.
+
+(* ---- C. extract_contractions ---- *)
+Definition filled3 (s : tstate) (p l r : node) : Prop :=
+  rd i_inds s p <> None /\ rd i_inds s l <> None /\ rd i_inds s r <> None.
+Lemma mrl_inds s s' nd : mrl n s s' -> rd i_inds s nd <> None -> rd i_inds s' nd <> None.
+Proof.
+  intros (A1&_) H. destruct (rd i_inds s nd) as [v|] eqn:E; [|congruence]. destruct (rd_Some _ _ _ _ E) as (i & Hi & Hv).
+  destruct (irel_nget _ _ _ A1 nd i Hi) as (i' & Hi' & (_&_&_&_&Hm&_)). unfold rd. rewrite Hi', (Hm v Hv). discriminate.
+Qed.
+Lemma mrl_filled s s' p l r : mrl n s s' -> filled3 s p l r -> filled3 s' p l r.
+Proof. intros H (A&B&C). repeat split; apply (mrl_inds s s'); assumption. Qed.
+Lemma rd_upd_keep {A} (fld : ninfo -> option A) nd f s : (forall i, fld (f i) = fld i) -> forall q, rd fld (upd_info nd f s) q = rd fld s q.
+Proof.
+  intros Hfld q. destruct (node_eq_dec q nd) as [->|Hq]; [|apply rd_upd_other, Hq].
+  destruct (nget nd (info s)) as [i|] eqn:E.
+  - rewrite (rd_upd_same fld nd f s i E). unfold rd. rewrite E. apply Hfld.
+  - unfold upd_info. rewrite E. reflexivity.
+Qed.
+Lemma g_eq_fill s nd l r : InvC n s -> PAe n s -> PBe s -> good_node n nd -> nget nd (children s) = Some (l, r) ->
+  err (fst (g_eq n s nd)) = false -> filled3 (fst (g_eq n s nd)) nd l r.
+Proof.
+  intros HI HA HP HG E. unfold g_eq. destruct (rd i_eq s nd) as [e|] eqn:Er.
+  - cbn [fst]. intros He. destruct (rd_Some _ _ _ _ Er) as (i & Hi & Hv).
+    destruct (HP He nd i Hi l r E) as (_&B2&_). destruct (B2 e Hv) as (li & ri & pi & Hl & Hr & Hp & _).
+    unfold filled3, rd at 1. rewrite Hi, Hp, Hl, Hr. repeat split; discriminate.
+  - rewrite E. pose proof (inds3_A n HN Hout s nd l r HI HA HG E) as H.
+    destruct (g_inds n s l) as [s1 li]. destruct (g_inds n s1 r) as [s2 ri]. destruct (g_inds n s2 nd) as [s3 pi].
+    destruct H as (_&_&_&_&_&_&_&C3). cbn [fst]. intros He. destruct (upd_err _ _ _ He) as [He3 _].
+    destruct (C3 He3) as (Cl & Cr & Cp). unfold filled3. rewrite !(rd_upd_keep i_inds) by (intros; reflexivity).
+    rewrite Cl, Cr, Cp. repeat split; discriminate.
+Qed.
+Lemma g_tdperm_fill s nd l r : InvC n s -> PAe n s -> PBe s -> good_node n nd -> nget nd (children s) = Some (l, r) ->
+  err (fst (g_tdperm n s nd)) = false -> filled3 (fst (g_tdperm n s nd)) nd l r.
+Proof.
+  intros HI HA HP HG E. unfold g_tdperm. destruct (rd i_tdperm s nd) as [e|] eqn:Er.
+  - cbn [fst]. intros He. destruct (rd_Some _ _ _ _ Er) as (i & Hi & Hv).
+    destruct (HP He nd i Hi l r E) as (_&_&B3&_). destruct (B3 e Hv) as (li & ri & pi & Hl & Hr & Hp & _).
+    unfold filled3, rd at 1. rewrite Hi, Hp, Hl, Hr. repeat split; discriminate.
+  - rewrite E. pose proof (inds3_A n HN Hout s nd l r HI HA HG E) as H.
+    destruct (g_inds n s l) as [s1 li]. destruct (g_inds n s1 r) as [s2 ri]. destruct (g_inds n s2 nd) as [s3 pi].
+    destruct H as (_&_&_&_&_&_&_&C3). cbn [fst]. intros He. destruct (upd_err _ _ _ He) as [He3 _].
+    destruct (C3 He3) as (Cl & Cr & Cp). unfold filled3. rewrite !(rd_upd_keep i_inds) by (intros; reflexivity).
+    rewrite Cl, Cr, Cp. repeat split; discriminate.
+Qed.
+
+Definition GoodSt (s : tstate) : Prop := InvC n s /\ PAe n s /\ PBe s.
+Lemma extract_step_ok pe s p lr l r : GoodSt s -> nget p (children s) = Some (l, r) ->
+  GoodSt (extract_step n pe s (p, lr)) /\ mrl n s (extract_step n pe s (p, lr)) /\
+  (err (extract_step n pe s (p, lr)) = false -> filled3 (extract_step n pe s (p, lr)) p l r).
+Proof.
+  intros (HI&HA&HP) E. destruct (entry_good n s p l r HI E) as (Gp&_&_). unfold extract_step. cbn [fst].
+  assert (Heq : forall s0, GoodSt s0 -> nget p (children s0) = Some (l, r) ->
+            GoodSt (fst (g_eq n s0 p)) /\ mrl n s0 (fst (g_eq n s0 p)) /\ (err (fst (g_eq n s0 p)) = false -> filled3 (fst (g_eq n s0 p)) p l r)).
+  { intros s0 (I0&A0&P0) E0. destruct (g_eq_A n HN Hout s0 p I0 A0 Gp) as [A1 M1].
+    split; [split; [apply inv_g_eq; assumption|split; [exact A1|apply g_eq_B; assumption]]|].
+    split; [exact M1|apply g_eq_fill; assumption]. }
+  destruct pe; [apply Heq; [split; [|split]; assumption|exact E]|].
+  destruct (g_can_dot_A n HN s p HI HA Gp) as [A1 M1]. pose proof (inv_g_can_dot n HN Hout s p HI Gp) as I1.
+  pose proof (g_can_dot_B n HN s p HI HP) as P1. destruct (g_can_dot n s p) as [s1 cd]. cbn [fst] in *.
+  assert (E1 : nget p (children s1) = Some (l, r)) by (destruct M1 as (_&Ec&_); rewrite Ec; exact E).
+  destruct (negb cd).
+  - destruct (Heq s1 (conj I1 (conj A1 P1)) E1) as (G2&M2&F2). split; [exact G2|]. split; [eapply mrl_trans; eassumption|exact F2].
+  - destruct (g_tdaxes_A n HN Hout s1 p I1 A1 Gp) as [A2 M2]. pose proof (inv_g_tdaxes n HN Hout s1 p I1 Gp) as I2.
+    pose proof (g_tdaxes_B n HN Hout s1 p I1 A1 P1 Gp) as P2. set (s2 := fst (g_tdaxes n s1 p)) in *.
+    assert (E2 : nget p (children s2) = Some (l, r)) by (destruct M2 as (_&Ec&_); rewrite Ec; exact E1).
+    destruct (g_tdperm_A n HN Hout s2 p I2 A2 Gp) as [A3 M3].
+    split; [split; [apply inv_g_tdperm; assumption|split; [exact A3|apply g_tdperm_B; assumption]]|].
+    split; [eapply mrl_trans; [exact M1|eapply mrl_trans; eassumption]|apply g_tdperm_fill; assumption].
+Qed.
+Lemma extract_ok pe nodes : forall s, GoodSt s -> (forall e, In e nodes -> nget (fst e) (children s) <> None) ->
+  GoodSt (extract n pe nodes s) /\ mrl n s (extract n pe nodes s) /\
+  (err (extract n pe nodes s) = false ->
+   forall e l r, In e nodes -> nget (fst e) (children s) = Some (l, r) -> filled3 (extract n pe nodes s) (fst e) l r).
+Proof.
+  unfold extract. induction nodes as [|[p lr] nodes IH]; intros s HG Hn; cbn [fold_left].
+  { split; [exact HG|]. split; [apply mrl_refl|intros _ e l r []]. }
+  pose proof (Hn _ (or_introl eq_refl)) as Hp. cbn [fst] in Hp.
+  destruct (nget p (children s)) as [[l r]|] eqn:E; [|congruence].
+  destruct (extract_step_ok pe s p lr l r HG E) as (G1&M1&F1). set (s1 := extract_step n pe s (p, lr)) in *.
+  assert (Ec1 : children s1 = children s) by apply M1.
+  destruct (IH s1 G1) as (G2&M2&F2).
+  { intros e He. rewrite Ec1. apply Hn. right. exact He. }
+  split; [exact G2|]. split; [eapply mrl_trans; eassumption|].
+  intros He e l' r' [<-|Hin] El.
+  - cbn [fst] in El. rewrite E in El. injection El as <- <-. apply (mrl_filled s1 _ p l r M2), F1, (mrl_err n _ _ M2 He).
+  - apply F2; [exact He|exact Hin|rewrite Ec1; exact El].
+Qed.
 End Ready.
